@@ -24,9 +24,31 @@ def kernel_scatter(ck):
                                  dict(backend=be, cross=cross, L=case["L"], starts=case["starts"], order=case["order"], omega=case["omega"], kinds=case["kinds"]), tag="M2:" + be)
 
 
+def dense_single_bin(ck):
+    """Single-bin requests whose nominal segment shift is below one sample ((1-olap)*L < 1): the number of averages the empirical
+    variance is divided by is the number of segments actually used."""
+    import numpy as np
+    from speckit.analysis import SpectrumAnalyzer
+    for cross in (False, True):
+        for L, olap, be in ((32, 0.99, "numba"), (64, 0.995, "numpy"), (20, 0.97, "numba")):
+            N = 3000
+            g = np.random.default_rng(ck.rng.randint(0, 2 ** 31))
+            x = g.standard_normal(N); y = 0.4 * x + g.standard_normal(N)
+            an = SpectrumAnalyzer(np.vstack([x, y]) if cross else x, 1.0, order=0, win="hann", olap=olap, backend=be)
+            with np.errstate(all="ignore"):
+                r = an.compute_single_bin(0.21, L=L)
+            nd = len(np.asarray(r.D[0]).ravel()); M2 = float(r._data["M2"][0])
+            inp = dict(L=L, olap=olap, backend=be, cross=cross, N=N)
+            if int(r.navg[0]) != nd or int(r.K[0]) != nd:
+                ck.violation("single bin, L=%d, olap=%g: navg=%d, K=%d but %d segment starts are reported" % (L, olap, int(r.navg[0]), int(r.K[0]), nd), inp, tag="navg=len(D)")
+            elif abs(float(r.XY_emp_var[0]) - M2 / nd) > 1e-12 * (M2 / nd + 1e-300):
+                ck.violation("single bin, L=%d, olap=%g: XY_emp_var=%r is not M2/K=%r with K=%d segments" % (L, olap, float(r.XY_emp_var[0]), M2 / nd, nd), inp, tag="emp_var")
+
+
 def extra(ck):
     if "C11" == "C11":
         kernel_scatter(ck)
+        dense_single_bin(ck)
     if "C11" == "C06":
         bad, worst = O.sinusoid_calibration(ck.rng, 8 if ck.tier == "quick" else 80)
         for tag, what, inp in bad:
